@@ -257,7 +257,14 @@ func runC18Reg(c *Ctx) {
 						for ordinal := 1; ordinal <= 3; ordinal++ {
 							var err error
 							if ordinal == 1 || !inHandler {
-								err = conn.Connect()
+								switch {
+								case (idx/32)%2 == 1 && ordinal == 1 && pass != "" && idx%2 == 0:
+									err = conn.ConnectTo("irc.test", pass) // the password handed over with the first call ...
+								case (idx/32)%2 == 1:
+									err = conn.ConnectTo("irc.test") // ... stays the client's password for later calls without one
+								default:
+									err = conn.Connect()
+								}
 							} else {
 								done := make(chan struct{})
 								go func() { err = <-reconn; close(done) }()
